@@ -159,6 +159,7 @@ type chanWorld struct {
 	fails      []Fail
 	failKeys   map[string]bool
 	ctxErrSeen map[string]bool
+	fatalFault string
 	excOn      map[string]error
 	lowErr     map[string]error
 	exceptions []error
@@ -675,6 +676,10 @@ func runChanCase(c *ChanCase) *ChanResult {
 					ev.A = gate + "!fail"
 					w.tr.FailNext = mock.ErrInjected
 					w.faultsUsed++
+					if _, isWriter := w.ops[proc]; !isWriter && netty.VerifState(w.ch).Closed == 0 {
+						// a failing transport call of the sender or the read loop on an open channel
+						w.fatalFault = gate + " by " + proc
+					}
 				} else {
 					res.Diverged++
 				}
@@ -860,6 +865,21 @@ func (w *chanWorld) oracleAtTransportClose() {
 func (w *chanWorld) oracleQuiescent() {
 	w.parse()
 	vs := netty.VerifState(w.ch)
+	if w.fatalFault != "" {
+		// C07: a failing sender write / unswallowed failing read closes the channel with that error
+		if vs.Closed == 0 || !w.tr.IsClosed() {
+			w.fail("C07", "transport-fault-not-closing", "the channel is still open at quiescence after a failed "+w.fatalFault)
+		} else if len(w.inactives) != 1 {
+			w.fail("C07", "transport-fault-inactive", fmt.Sprintf("inactive delivered %d times after a failed %s", len(w.inactives), w.fatalFault))
+		} else if w.winner != "" && w.closeErr[w.winner] == nil && !isCloser(w.c, w.winner) && !errors.Is(w.inactives[0], mock.ErrInjected) {
+			w.fail("C07", "transport-fault-error", fmt.Sprintf("channel closed with %v after a failed %s", w.inactives[0], w.fatalFault))
+		}
+		for _, n := range []string{"R"} {
+			if loc := w.s.Loc(n); loc != "done" && loc != "none" {
+				w.fail("C07", "goroutine-stuck", fmt.Sprintf("%s is %s at quiescence after a failed %s", n, loc, w.fatalFault))
+			}
+		}
+	}
 	n, fl, _ := w.tr.Lens()
 	if vs.Closed == 0 && w.faultsUsed == 0 {
 		for _, op := range w.allOps() {
@@ -966,6 +986,15 @@ func (w *chanWorld) pickRandom(rnd *rand.Rand, atGate []string, prio map[string]
 		}
 	}
 	return kind, proc
+}
+
+func isCloser(c *ChanCase, name string) bool {
+	for _, cs := range c.Closers {
+		if cs.Name == name {
+			return true
+		}
+	}
+	return false
 }
 
 func contains(xs []string, x string) bool {
